@@ -186,7 +186,7 @@ def check_tree(res, verdict, inv, umask=0o022, t_start_ns=None, fault_exempt=(),
             if q.get("size") != spec.get("size") or q.get("h") != spec.get("h"):
                 finds.append(Finding("C01", "content" + suffix, p,
                                      "size/hash %s/%s, source %s/%s" % (q.get("size"), q.get("h"), spec.get("size"), spec.get("h"))))
-            if "mode" not in fault_exempt and spec.get("mode") is not None and q["mode"] != spec["mode"]:
+            if "mode" not in fault_exempt and spec.get("mode") is not None and q["mode"] != spec["mode"] and q["mode"] != spec.get("mode_alt"):
                 finds.append(Finding("C10", "mode" + suffix + mode_suffix(spec, fl), p, "mode %o, expected %o" % (q["mode"], spec["mode"])))
             if spec.get("mtime") is not None and q["mtime"] != spec["mtime"]:
                 finds.append(Finding("C10", "mtime" + suffix, p, "mtime %s, expected %s" % (q["mtime"], spec["mtime"])))
